@@ -266,6 +266,19 @@ func judgeTape(tp *Tape, o Outcome) (bool, string) {
 				return true, ""
 			}
 			return false, "engine predicted an out-of-bounds access by the assembly, the native run shows no misbehaviour"
+		case strings.HasPrefix(want, "alloc-bounded"):
+			// predicted: a single allocation of N cells (bytes); natively: bytes allocated during the run
+			var n uint64
+			if i := strings.Index(want, "allocation of "); i >= 0 {
+				fmt.Sscanf(want[i:], "allocation of %d cells", &n)
+			}
+			if got := o.Notes["__alloc_bytes"]; n > 0 && got >= n/10*9 {
+				return true, ""
+			}
+			if o.Crash || o.Panic != "" {
+				return true, "" // out of memory / makeslice panic
+			}
+			return false, fmt.Sprintf("engine predicted an allocation of %d bytes, the native run allocated %d in total", n, o.Notes["__alloc_bytes"])
 		case strings.HasPrefix(want, "conc-race"):
 			if o.Crash && strings.Contains(o.Panic, "DATA RACE") {
 				return true, ""
